@@ -7,6 +7,7 @@ pseudo-instruction vocabulary; E8 raw bytes.  Oracle: documented normal exit, no
 AddressSanitizer report, no budget exit.
 """
 import hashlib
+import re
 import struct
 
 from .. import codefile, corpus, oracle, pool
@@ -185,6 +186,32 @@ def gen_vocab_program(rng, n_stmt):
 OPT_SWARM = [["-L"], ["-u"], ["-C"], ["-s"], ["-g", "MAP"], ["-g", "NOICE"], ["-g", "ATMEL"], ["-P"], ["-M"], ["-x"],
              ["-n"], ["-A"], ["-U"], ["-relaxed"], ["-compmode"], ["-maxerrors", "3"], ["-x", "-x"], ["-E", "!1"],
              ["-gnuerrors"], ["-a"], ["-c"], ["-p"], ["-h"], ["-l"], ["-Werror"], ["-t", "3"], ["-I"]]
+
+
+_MACDEF = re.compile(rb"^([A-Za-z_.$@][\w.$@]*):?[ \t]+macro\b", re.I | re.M)
+
+
+def may_not_terminate(src):
+    """The property claims termination only for inputs without WHILE and without self-recursive macros: a source that
+    has WHILE, or a macro whose body invokes a macro defined in the same text, is outside that claim."""
+    low = src.lower()
+    if b"while" in low:
+        return True
+    names = {m.group(1).lower() for m in _MACDEF.finditer(src)}
+    if not names:
+        return False
+    inside = 0
+    for ln in low.split(b"\n"):
+        f = ln.split()
+        if len(f) >= 2 and f[1] == b"macro":
+            inside += 1
+            continue
+        if f and f[0] == b"endm" or (len(f) >= 2 and f[1] == b"endm"):
+            inside = max(0, inside - 1)
+            continue
+        if inside and any(tok.rstrip(b":") in names for tok in f[:2]):
+            return True
+    return False
 
 
 def swarm_opts(rng, p=0.12):
@@ -550,7 +577,7 @@ def run_case(sim, case):
             if len(s) > 60000:
                 continue
             desc = []
-            has_loop = b"while" in t.src.lower()
+            has_loop = False  # decided on the mutated text below
             for _ in range(rng.randint(1, 3)):
                 m = rng.below(4)
                 if m == 0 and len(s) > 1:
@@ -576,11 +603,12 @@ def run_case(sim, case):
                       cwd="/sim/tests/" + t.name, disk={"/w/mut.asm": bytes(s)},
                       env={"LANG": "C", "ASL_VERIF_MAX_LINES": "3000000"}, max_disk=32 << 20)
             r, san, cls = run_one(sim, acc, "asl", sc, "E6 %s %s" % (t.name, ",".join(desc)), "source-mutation")
+            has_loop = may_not_terminate(bytes(s))
             if cls and "hang" in cls and has_loop:
                 # termination is not claimed for sources with WHILE: drop hang verdicts there
                 acc.violations = [v for v in acc.violations if v["class"] != cls]
                 acc.seen_cls.discard(cls)
-                acc.bump(acc.probes, "hang_ignored_source_has_while")
+                acc.bump(acc.probes, "hang_ignored_while_or_recursive_macro")
         acc.sample = {"space": "E6", "n": case["n"]}
     elif g in ("vocab1", "vocab1s"):
         def one(ci, pi, ai, labelled):
